@@ -214,6 +214,7 @@ ASSUME_COMMON = [
     "the verification port (harness/vport.c) is the only environment of the core: closed world at lltdPort.h",
     "TLC 1.8 and the TLA+ specifications in /verif/spec are the oracle; the wire layout in Wire.tla is written from MS-LLTD",
     "clang 14 ASan/UBSan build of /repo's working tree with -DLLTD_VERIF_HOOKS, never -DLLTD_TESTING",
+    "interface MTU in [576, 9216] (the range the property list names) for sessions that involve a Hello; down to 54 octets for sessions that do not",
 ]
 
 
